@@ -1252,7 +1252,7 @@ func c07GapSwapSkip(c *rep.Ctx) {
 		return "", false, false
 	}
 	for _, r := range g.NilReturns() {
-		if g.Dominated(r, swapOK) {
+		if swapOK[r] || g.Dominated(r, swapOK) {
 			continue
 		}
 		ok, how := g.GuardedAt(r, at, map[string]bool{"done": true})
